@@ -275,7 +275,10 @@ fn main_builder_replay(args: &[String]) -> i32 {
 
 fn main() {
     // Panics of the library under test are expected and caught; keep stderr clean.
-    std::panic::set_hook(Box::new(|_| {}));
+    // FG_PANIC_VERBOSE=1 prints them (debugging the harness itself).
+    if std::env::var_os("FG_PANIC_VERBOSE").is_none() {
+        std::panic::set_hook(Box::new(|_| {}));
+    }
 
     let args: Vec<String> = std::env::args().collect();
     let code = match args.get(1).map(|s| s.as_str()) {
